@@ -19,7 +19,7 @@ var (
 
 // C15: compose concatenates its sources in order; copy clones an object.
 func runC15(run *common.Run) {
-	run.Rule = "case = fresh bucket(s) with 2-5 source objects (one empty, some with rich metadata), a baseline dump, ONE compose or copy request, a whole-store dump. Compose: 0..33 sources (boundary counts 0,1,2,31,32,33 over-weighted) drawn with repeats from the pool, destination among the sources, a missing source at a random position, per-source generation conditions, destination names with '/', spaces, dots, unicode, pre-existing destination, destination contentType / user metadata. Copy: same and cross bucket, destination names containing '/', '/o/', spaces, dots, unicode, missing source, overwrite of an existing destination. Oracle: destination content == concatenation in request order, destination metadata from the request, every source byte-, metadata-, generation- and metageneration-identical to before, >32 => 400, missing => 404 and nothing changed, copy response carries the resource with totalBytesRewritten == objectSize == len(content) and the source's content, MD5 and user-settable metadata. Non-trivial = a successful compose of >= 2 sources, or a successful copy to a name containing '/' or into another bucket; distinct by hash of the step log x store."
+	run.Rule = "case = one program in ONE pair of fresh buckets: 2-5 source objects (one empty, some with rich metadata), a baseline dump, then 3-8 compose / copy requests that re-use the same sources (the same leading source over and over), take earlier composed or copied objects as later sources and write destinations that are among the sources, with a whole-store dump after EVERY request (so an earlier object changing under a later request is seen). Compose: 0..33 sources (boundary counts 0,1,2,31,32,33 over-weighted) drawn with repeats from the pool, destination among the sources, a missing source at a random position, per-source generation conditions, destination names with '/', spaces, dots, unicode, pre-existing destination, destination contentType / user metadata. Copy: same and cross bucket, destination names containing '/', '/o/', spaces, dots, unicode, missing source, overwrite of an existing destination. Oracle: destination content == concatenation in request order, destination metadata from the request, every source byte-, metadata-, generation- and metageneration-identical to before, >32 => 400, missing => 404 and nothing changed, copy response carries the resource with totalBytesRewritten == objectSize == len(content) and the source's content, MD5 and user-settable metadata. Non-trivial = the program had >= 2 successful requests, a successful compose of >= 2 sources and a step that used an earlier result as a source; distinct by hash of the step log x store."
 	run.Assumptions = []string{
 		"0 sources: a 4xx (nothing changed) or an empty object are both accepted (the statement says 1 to 32)",
 		"a composite object need not carry an md5Hash",
@@ -103,6 +103,23 @@ func c15Case(run *common.Run, srv *drive.Server, idx int) {
 			}
 		}
 	}
+	// The destination candidates of this case are fixed up front so that every dump reads the same name set
+	// (sources, candidates, every "/"-prefix of a candidate: a truncated or mangled destination shows up there).
+	dstCands := append(append([]string(nil), c15CopyNames...), c15DstNames...)
+	common.Shuffle(r, dstCands)
+	dstCands = dstCands[:5]
+	for _, b := range []string{b1, b2} {
+		u := append([]string{"decoy", "missing-source"}, pool...)
+		for _, dn := range dstCands {
+			u = append(u, dn)
+			for i, c := range dn {
+				if c == '/' {
+					u = append(u, dn[:i])
+				}
+			}
+		}
+		e.universe[b] = u
+	}
 	pickName := func(b string, cands []string) (string, bool) {
 		cs := append([]string(nil), cands...)
 		common.Shuffle(r, cs)
@@ -113,142 +130,143 @@ func c15Case(run *common.Run, srv *drive.Server, idx int) {
 		}
 		return "", false
 	}
-	nontrivial := false
-	isCompose := r.Bool()
-	var spec *composeSpec
-	var sb, sn, db, dn string
-	if isCompose {
-		k := 0
-		switch x := r.Intn(100); {
-		case x < 4:
-			k = 0
-		case x < 14:
-			k = 1
-		case x < 30:
-			k = 2
-		case x < 50:
-			k = r.Range(3, 6)
-		case x < 62:
-			k = r.Range(7, 30)
-		case x < 74:
-			k = 31
-		case x < 88:
-			k = 32
-		default:
-			k = 33
-		}
-		dst, ok := "", false
-		if r.Chance(3, 10) {
-			dst, ok = common.Pick(r, pool), true // destination among the sources
-		} else {
-			dst, ok = pickName(b1, c15DstNames)
-		}
-		if !ok {
-			dst = "out"
-		}
-		if e.m.Get(b1, dst) == nil && r.Chance(3, 10) {
-			if msg := e.upload(&uploadSpec{Proto: "media", Bucket: b1, Name: dst, Body: []byte("old destination"), CT: "image/png"}, r); msg != "" {
-				fail("set-up: " + msg)
-				return
-			}
-		}
-		spec = &composeSpec{Bucket: b1, Dst: dst}
-		for i := 0; i < k; i++ {
-			s := composeSrc{Name: common.Pick(r, pool)}
-			if r.Chance(1, 10) {
-				g := e.m.Get(b1, s.Name).Gen
-				if r.Chance(1, 4) {
-					g--
-				}
-				s.GenMatch = model.I(g)
-			}
-			spec.Srcs = append(spec.Srcs, s)
-		}
-		if k > 0 && r.Chance(12, 100) {
-			spec.Srcs[r.Intn(k)].Name = "missing-source"
-		}
-		if r.Chance(7, 10) {
-			spec.CT = common.Pick(r, contentTypes)
-		}
-		if r.Chance(4, 10) {
-			spec.UserMeta = genUserMeta(r)
-		}
-	} else {
-		sb, db = b1, b1
-		if r.Bool() {
-			db = b2
-		}
-		sn = common.Pick(r, pool)
-		if r.Chance(1, 10) {
-			sn = "missing-source"
-		}
-		var ok bool
-		cands := append(append([]string(nil), c15CopyNames...), c15DstNames...)
-		for tries := 0; tries < 20; tries++ {
-			dn, ok = pickName(db, cands)
-			if ok && !(db == sb && dn == sn) {
-				break
-			}
-			ok = false
-		}
-		if !ok {
-			dn = "copy"
-		}
-		if e.m.Get(db, dn) == nil && r.Chance(3, 10) {
-			if msg := e.upload(&uploadSpec{Proto: "media", Bucket: db, Name: dn, Body: []byte("old destination"), CT: "image/png"}, r); msg != "" {
-				fail("set-up: " + msg)
-				return
-			}
-		}
-	}
-	for _, b := range []string{b1, b2} {
-		e.universe[b] = []string{"decoy", "x", "out", "copy"}
-		if spec != nil && b == b1 {
-			e.universe[b] = append(e.universe[b], spec.Dst)
-		}
-		if dn != "" {
-			e.universe[b] = append(e.universe[b], dn)
-			// a truncated or mangled destination name would show up under one of its prefixes
-			for i, c := range dn {
-				if c == '/' {
-					e.universe[b] = append(e.universe[b], dn[:i])
-				}
-			}
-		}
-	}
 	if msg := e.verify(); msg != "" {
 		fail("baseline dump: " + msg)
 		return
 	}
-	if isCompose {
-		before := e.stats["composes_ok"]
-		if msg := e.compose(spec); msg != "" {
-			fail(msg)
+	composed := map[string]bool{} // names in b1 that are results of an earlier compose / copy of this case
+	okOps, reused, bigCompose, slashOrCross := 0, 0, 0, 0
+	nsteps := r.Range(3, 8)
+	for st := 0; st < nsteps; st++ {
+		live := e.liveIn(b1)
+		if r.Chance(6, 10) {
+			// ---- compose in b1: sources from every live name, earlier results included
+			k := 0
+			switch x := r.Intn(100); {
+			case x < 3:
+				k = 0
+			case x < 12:
+				k = 1
+			case x < 40:
+				k = 2
+			case x < 70:
+				k = r.Range(3, 6)
+			case x < 80:
+				k = r.Range(7, 30)
+			case x < 87:
+				k = 31
+			case x < 94:
+				k = 32
+			default:
+				k = 33
+			}
+			dst, ok := "", false
+			if r.Chance(3, 10) && len(live) > 0 {
+				dst, ok = common.Pick(r, live), true // destination among the (possible) sources
+			} else {
+				dst, ok = pickName(b1, dstCands)
+			}
+			if !ok {
+				continue
+			}
+			spec := &composeSpec{Bucket: b1, Dst: dst}
+			usesEarlier := false
+			for i := 0; i < k; i++ {
+				s := composeSrc{Name: common.Pick(r, live)}
+				if i == 0 && r.Chance(1, 2) {
+					s.Name = live[0] // the same leading source again and again: in-place appends would hit it
+				}
+				if r.Chance(1, 12) {
+					g := e.m.Get(b1, s.Name).Gen
+					if r.Chance(1, 4) {
+						g--
+					}
+					s.GenMatch = model.I(g)
+				}
+				if composed[s.Name] {
+					usesEarlier = true
+				}
+				spec.Srcs = append(spec.Srcs, s)
+			}
+			if k > 0 && r.Chance(10, 100) {
+				spec.Srcs[r.Intn(k)].Name = "missing-source"
+			}
+			if r.Chance(7, 10) {
+				spec.CT = common.Pick(r, contentTypes)
+			}
+			if r.Chance(4, 10) {
+				spec.UserMeta = genUserMeta(r)
+			}
+			before := e.stats["composes_ok"]
+			if msg := e.compose(spec); msg != "" {
+				fail(msg)
+				return
+			}
+			run.Count(fmt.Sprintf("compose_sources_%s", srcBucket(len(spec.Srcs))), 1)
+			if e.stats["composes_ok"] > before {
+				okOps++
+				composed[dst] = true
+				if len(spec.Srcs) >= 2 {
+					bigCompose++
+				}
+				if usesEarlier {
+					reused++
+				}
+			}
+		} else {
+			// ---- copy from b1 into b1 or b2
+			sb, db := b1, b1
+			if r.Bool() {
+				db = b2
+			}
+			sn := "missing-source"
+			if len(live) > 0 && !r.Chance(1, 10) {
+				sn = common.Pick(r, live)
+			}
+			dn, ok := "", false
+			for tries := 0; tries < 20 && !ok; tries++ {
+				dn, ok = pickName(db, dstCands)
+				if ok && db == sb && dn == sn {
+					ok = false
+				}
+			}
+			if !ok {
+				continue
+			}
+			before := e.stats["copies_ok"]
+			if msg := e.copyObj(sb, sn, db, dn); msg != "" {
+				fail(msg)
+				return
+			}
+			if e.stats["copies_ok"] > before {
+				okOps++
+				if composed[sn] {
+					reused++
+				}
+				if db == b1 {
+					composed[dn] = true
+				}
+				if strings.Contains(dn, "/") || db != sb {
+					slashOrCross++
+				}
+				if strings.Contains(dn, "/o/") {
+					run.Count("copy_destinations_with_/o/", 1)
+				}
+				if db != sb {
+					run.Count("copies_cross_bucket", 1)
+				}
+			}
+		}
+		// whole-store dump after EVERY step: an earlier object changing under a later request is seen here
+		if msg := e.verify(); msg != "" {
+			fail(fmt.Sprintf("after step %d: %s", len(e.steps)-1, msg))
 			return
 		}
-		nontrivial = e.stats["composes_ok"] > before && len(spec.Srcs) >= 2
-		run.Count(fmt.Sprintf("compose_sources_%s", srcBucket(len(spec.Srcs))), 1)
-	} else {
-		before := e.stats["copies_ok"]
-		if msg := e.copyObj(sb, sn, db, dn); msg != "" {
-			fail(msg)
-			return
-		}
-		nontrivial = e.stats["copies_ok"] > before && (strings.Contains(dn, "/") || db != sb)
-		if strings.Contains(dn, "/o/") {
-			run.Count("copy_destinations_with_/o/", 1)
-		}
-		if db != sb {
-			run.Count("copies_cross_bucket", 1)
-		}
 	}
-	if msg := e.verify(); msg != "" {
-		fail("after the request: " + msg)
-		return
-	}
-	run.Case(common.Hash64(srv.Kind, stepsHash(e.steps)), nontrivial)
-	if idx < 6 {
-		run.Sample(map[string]any{"store": srv.Kind, "case": idx, "steps": tailSteps(e.steps, 1)})
+	run.Count("steps_reusing_an_earlier_result_as_source", int64(reused))
+	run.Case(common.Hash64(srv.Kind, stepsHash(e.steps)), okOps >= 2 && bigCompose > 0 && reused > 0)
+	if idx < 4 {
+		run.Sample(map[string]any{"store": srv.Kind, "case": idx, "steps": tailSteps(e.steps, 4)})
 	}
 }
 
